@@ -15,6 +15,15 @@ def _merge_stats(dst, src):
         dst[k] = dst.get(k, 0) + v
 
 
+def _inject(cfg, prog):
+    inj = cfg.get("inject")
+    if not inj:
+        return None
+    # the phase of the stride over the injection points is a function of the generated case
+    phase = sum((1 << i) for i, b in enumerate(prog["conds"]) if b) + len(prog["sched"]) * 7
+    return [inj[0], inj[1], phase]
+
+
 def run_prog_everywhere(ws, prog, cfg, out, interps):
     """Execute one program on each interpreter; returns (violations, merged stats)."""
     viols = []
@@ -22,7 +31,7 @@ def run_prog_everywhere(ws, prog, cfg, out, interps):
     for interp in interps:
         try:
             res = ws[interp].request({"op": "g1.run", "prog": prog, "modes": cfg["modes"],
-                                      "repeat": cfg.get("repeat", 1)})
+                                      "repeat": cfg.get("repeat", 1), "inject": _inject(cfg, prog)})
         except WorkerDied as ex:
             viols.append({"desc": "interpreter %s died (exit %r) while executing the program" % (interp, ex.returncode),
                           "interp": interp, "obs": []})
